@@ -1,15 +1,18 @@
 #!/bin/bash
 # usage: tools/mutrun.sh <patch-file|-> <check-id> [seed] [tier]
 # Builds the harness against a scratch worktree of /repo (HEAD + patch) and runs one check with it.
-# The worktree lives under /tmp and is removed afterwards. "-" = no patch (sanity run).
+# The worktree /tmp/mutwt is reset afterwards (remove it with: git -C /repo worktree remove --force /tmp/mutwt). "-" = no patch (sanity run).
 set -u
 patch=$(readlink -f "$1" 2>/dev/null || echo "$1"); [ "$1" = "-" ] && patch="-"; id=$2; seed=${3:-1}; tier=${4:-quick}
 export GOFLAGS=-mod=mod GOPROXY=off
 # disk guard: builds against scratch worktrees fill the go build cache (one set of objects per path)
 if [ "$(df --output=avail -BG / | tail -1 | tr -dc 0-9)" -lt 40 ]; then go clean -cache >/dev/null 2>&1; fi
-wt=$(mktemp -d /tmp/mutwt.XXXXXX); rmdir $wt
-git -C /repo worktree add --detach -q $wt HEAD || exit 2
-trap 'git -C /repo worktree remove --force $wt; rm -f /tmp/mut.$$.mod /tmp/mut.$$.sum /verif/bin/verif-mut.$$' EXIT
+# one fixed scratch worktree (stable path = go build cache hits), serialised by a lock
+exec 9>/tmp/mutwt.lock; flock 9
+wt=/tmp/mutwt
+if [ ! -d $wt/.git ] && [ ! -f $wt/.git ]; then git -C /repo worktree prune; git -C /repo worktree add --detach -q $wt HEAD || exit 2; fi
+git -C $wt checkout -q --detach $(git -C /repo rev-parse HEAD) && git -C $wt reset -q --hard && git -C $wt clean -qfd
+trap 'git -C $wt reset -q --hard; git -C $wt clean -qfd; rm -f /tmp/mut.$$.mod /tmp/mut.$$.sum /verif/bin/verif-mut.$$' EXIT
 if [ "$patch" != "-" ]; then git -C $wt apply $patch || { echo "patch does not apply"; exit 2; }; fi
 (cd $wt && go build ./pkg/... ) || { echo "mutant does not compile"; exit 2; }
 sed "s#=> /repo#=> $wt#" /verif/harness/go.mod > /tmp/mut.$$.mod; cp /verif/harness/go.sum /tmp/mut.$$.sum
